@@ -33,6 +33,12 @@ func WorkerMain() {
 		}
 		env = &Env{Scratch: "/", Chrooted: true}
 	}
+	if mode != "chroot" && dir != "" {
+		// relative paths written by a goroutine that outlives its call must land in the scratch directory, never in
+		// the directory the harness was started from
+		os.MkdirAll(dir, 0o755)
+		os.Chdir(dir)
+	}
 	in := bufio.NewReaderSize(os.Stdin, 1<<20)
 	out := bufio.NewWriter(os.Stdout)
 	var outMu sync.Mutex
